@@ -229,6 +229,7 @@ def jobs(tier):
             out.append({"name": "sk%03d/%d" % (i, p), "skeleton": s, "part": p, "parts": parts, "tier": tier})
     out.append({"name": "wrong-root", "wrongroot": True, "tier": tier})
     out.append({"name": "via-config", "viaconfig": True, "tier": tier})
+    out.append({"name": "aliased", "aliased": True, "tier": tier})
     return out
 
 
@@ -278,6 +279,9 @@ def run_job(job, ctx):
         return
     if job.get("wrongroot"):
         _wrong_root(ctx, cfg)
+        return
+    if job.get("aliased"):
+        _aliased(ctx, cfg)
         return
     if job.get("viaconfig") or (single and single.get("viaconfig")):
         _via_config(ctx, (single or {}).get("only"))
@@ -395,6 +399,18 @@ def check_tree(ctx, cfg, tree):
                           "%s: %s decoded as %s" % (row, V.show(tree, 80), V.show(back, 80)),
                           {"tree": V.enc(tree), "job": "tree"}, size=len(repr(tree)))
             continue
+        # a decoded tree belongs to the caller: writing into it changes no later decode of the same bytes
+        _FRESH[0] += 1
+        if _has_empty(tree) or _FRESH[0] % 4 == 0:
+            _scribble(back)
+            try:
+                again = canon(cc.ConfigFormat.get(fmt, **opts).loads(cfg, data))
+            except Exception as exc:  # noqa
+                again = "raised %r" % (exc,)
+            if again != want:
+                ctx.violation("C04|%s|decode-after-caller-wrote|%s" % (row, _shape(tree)),
+                              "%s: after the caller wrote into the decoded tree, the same bytes decode as %s instead of %s" % (row, V.show(again, 80), V.show(tree, 80)),
+                              {"tree": V.enc(tree), "job": "tree"}, size=len(repr(tree)))
         # the same through a format object that has already encoded / decoded other trees (and this one, twice)
         _COUNT[0] += 1
         if _COUNT[0] % REUSE_EVERY:
@@ -415,6 +431,47 @@ def check_tree(ctx, cfg, tree):
                           "%s: through a format object that was used before, %s decodes as %s / %s" % (row, V.show(tree, 80), V.show(back2, 60), V.show(back3, 60)),
                           {"tree": V.enc(tree), "job": "tree"}, size=len(repr(tree)))
     ctx.traces += 1
+
+
+_FRESH = [0]
+
+
+def _has_empty(t):
+    if isinstance(t, dict):
+        return not t or any(_has_empty(v) for v in t.values())
+    if isinstance(t, (list, tuple)):
+        return not t or any(_has_empty(v) for v in t)
+    return False
+
+
+def _scribble(t):
+    if isinstance(t, dict):
+        for v in list(t.values()):
+            _scribble(v)
+        t["#scribble"] = 1
+    elif isinstance(t, list):
+        for v in t:
+            _scribble(v)
+        t.append("#scribble")
+
+
+def _aliased_trees():
+    """acyclic trees in which one container object occurs at several places"""
+    out = []
+    for mk in (lambda: [], lambda: [1, "x"], lambda: {}, lambda: {"k": 1}, lambda: [[]], lambda: {"k": []}, lambda: [{"k": None}]):
+        p = mk(); out.append({"a": p, "b": p})
+        p = mk(); out.append({"a": [p, p]})
+        p = mk(); out.append({"a": [p, p, p], "b": p})
+        p = mk(); out.append({"a": {"x": p}, "b": {"x": p}})
+        p = mk(); out.append({"a": p, "b": {"c": {"d": p}}})
+        p = mk(); q = {"in": p}; out.append({"a": q, "b": q, "c": p})
+    return out
+
+
+def _aliased(ctx, cfg):
+    for tree in _aliased_trees():
+        check_tree(ctx, cfg, tree)
+    ctx.states += len(_aliased_trees())
 
 
 def _shape(t):
